@@ -46,10 +46,56 @@ class Ctx:
         self.distinct = set()
 
     def cleanup(self):
+        self._unlock()
         shutil.rmtree(self.tmp, ignore_errors=True)
+
+    # ---- isolation of concurrent runs ----------------------------------------------------
+    # The regenerated Lean files (lean/Slock/Gen), build/facts.json and the driver executable are shared by every run, and a
+    # run may point at a different source tree (VERIF_REPO, used for seeded changes and mutation scans). The LEAN PHASE of a run
+    # (extract → lake build → audit → leanchecker) therefore holds an exclusive lock and always starts by re-extracting from ITS
+    # source tree; the facts and the driver executable it produced are copied into the run's private directory, where the
+    # harness binaries are built too, so the long differential phase needs no lock.
+    def _lock(self):
+        if getattr(self, "_lockf", None) is None:
+            import fcntl
+            os.makedirs(BUILD, exist_ok=True)
+            self._lockf = open(os.path.join(BUILD, ".leanlock"), "w")
+            fcntl.flock(self._lockf, fcntl.LOCK_EX)
+            return True
+        return False
+
+    def _unlock(self):
+        f = getattr(self, "_lockf", None)
+        if f is not None:
+            import fcntl
+            try:
+                fcntl.flock(f, fcntl.LOCK_UN)
+                f.close()
+            except Exception:
+                pass
+            self._lockf = None
+
+    def _lean_phase(self):
+        """Called by every step that reads the shared Lean project: take the lock and make Gen match this run's source tree."""
+        if self._lock():
+            self._run_extract(quiet=True)
+
+    def _snapshot_shared(self):
+        for src, dst in ((os.path.join(BUILD, "facts.json"), os.path.join(self.tmp, "facts.json")), (MODEL_EXE, os.path.join(self.tmp, "slockmodel"))):
+            try:
+                if os.path.exists(src):
+                    shutil.copy2(src, dst)
+            except Exception:
+                pass
 
     # ---- step 1: extraction --------------------------------------------------------------
     def extract(self):
+        self._lock()
+        ok = self._run_extract(quiet=False)
+        self._snapshot_shared()
+        return ok
+
+    def _run_extract(self, quiet):
         exe = os.path.join(BUILD, "extract")
         rc, out, _ = sh(["go", "build", "-o", exe, "./extract"], cwd=os.path.join(VERIF, "go"), env=GOENV)
         if rc != 0:
@@ -59,14 +105,20 @@ class Ctx:
         self.facts = json.load(open(facts)) if os.path.exists(facts) else {}
         if rc != 0:
             for e in (self.facts.get("errors") or [out.strip()]):
-                self.broken.append({"kind": "tie", "name": "extract", "detail": e})
-        log(f"extract rc={rc} {dt:.1f}s layouts={len(self.facts.get('layouts') or [])} kernels={len(self.facts.get('kernels') or [])}")
+                b = {"kind": "tie", "name": "extract", "detail": e}
+                if b not in self.broken:
+                    self.broken.append(b)
+        if not quiet:
+            log(f"extract rc={rc} {dt:.1f}s layouts={len(self.facts.get('layouts') or [])} kernels={len(self.facts.get('kernels') or [])}")
         return rc == 0
 
     # ---- step 2: proofs ------------------------------------------------------------------
     def lake_build(self, modules, exe=True):
+        self._lean_phase()
         targets = list(modules) + (["slockmodel"] if exe else [])
         rc, out, dt = sh(["lake", "build"] + targets, cwd=LEAN, timeout=3000)
+        if exe:
+            self._snapshot_shared()
         log(f"lake build {' '.join(targets)} rc={rc} {dt:.1f}s")
         if rc != 0:
             errs = [l for l in out.splitlines() if l.startswith("error:")]
@@ -76,6 +128,7 @@ class Ctx:
 
     def audit(self, module, theorems):
         """#print axioms for each theorem; grep the sources the module transitively imports (project files only)."""
+        self._lean_phase()
         src = f"import {module}\n" + "".join(f"#print axioms {t}\n" for t in theorems)
         path = os.path.join(self.tmp, "Audit.lean")
         open(path, "w").write(src)
@@ -134,6 +187,7 @@ class Ctx:
         return ok_thms == len(theorems) and not hits
 
     def leanchecker(self, module):
+        self._lean_phase()
         rc, out, dt = sh(["lake", "env", "leanchecker", module], cwd=LEAN, timeout=3000)
         log(f"leanchecker {module} rc={rc} {dt:.1f}s")
         if rc != 0:
@@ -145,9 +199,13 @@ class Ctx:
         """Compile /repo/<pkg> with the harness sources overlaid; returns the test binary path.
         `only` = list of harness file names: build a binary holding just the common scaffolding and those files
         (one broken harness file then cannot take the other properties' checks down)."""
+        if not os.path.exists(os.path.join(self.tmp, "facts.json")):
+            self._lean_phase()
+            self._snapshot_shared()
+        self._unlock()
         hdir = os.path.join(VERIF, "go/harness")
         tag = "" if not only else "-" + hashlib.md5(",".join(sorted(only)).encode()).hexdigest()[:8]
-        gen = os.path.join(BUILD, "harness-" + pkg + tag)
+        gen = os.path.join(self.tmp, "harness-" + pkg + tag)
         os.makedirs(gen, exist_ok=True)
         overlay = {}
         common = open(os.path.join(hdir, "common/zz_verif_common_test.go.in")).read().replace("package PKG", "package " + pkg)
@@ -160,7 +218,7 @@ class Ctx:
                 overlay[os.path.join(REPO, pkg, fn)] = os.path.join(hdir, pkg, fn)
         ov = os.path.join(gen, "overlay.json")
         json.dump({"Replace": overlay}, open(ov, "w"))
-        exe = os.path.join(BUILD, pkg + tag + ".test")
+        exe = os.path.join(self.tmp, pkg + tag + ".test")
         rc, out, dt = sh(["go", "test", "-c", "-tags", "verif", "-vet=off", "-overlay", ov, "-o", exe, "./" + pkg], cwd=REPO, env=GOENV, timeout=900)
         log(f"go test -c ./{pkg} rc={rc} {dt:.1f}s")
         if rc != 0:
@@ -172,7 +230,7 @@ class Ctx:
         outdir = os.path.join(self.tmp, f"{mode}-{seed if seed is not None else self.seed}")
         os.makedirs(outdir, exist_ok=True)
         env = dict(os.environ, VERIF_MODE=mode, VERIF_SEED=str(seed if seed is not None else self.seed), VERIF_N=str(n),
-                   VERIF_OUT=outdir, VERIF_FACTS=os.path.join(BUILD, "facts.json"), VERIF_DATA=outdir)
+                   VERIF_OUT=outdir, VERIF_FACTS=(os.path.join(self.tmp, "facts.json") if os.path.exists(os.path.join(self.tmp, "facts.json")) else os.path.join(BUILD, "facts.json")), VERIF_DATA=outdir)
         env.update(extra or {})
         if os.environ.get("VERIF_HARNESS_TIMEOUT"):   # mutation scans: a hang is a detection, do not wait long for it
             timeout = min(timeout, int(os.environ["VERIF_HARNESS_TIMEOUT"]))
@@ -188,7 +246,8 @@ class Ctx:
         out = opsfile[:-4] + ".model"
         with open(opsfile) as fi, open(out, "w") as fo:
             t0 = time.time()
-            p = subprocess.run([MODEL_EXE], stdin=fi, stdout=fo, stderr=subprocess.PIPE, text=True, timeout=3000)
+            mexe = os.path.join(self.tmp, "slockmodel")
+            p = subprocess.run([mexe if os.path.exists(mexe) else MODEL_EXE], stdin=fi, stdout=fo, stderr=subprocess.PIPE, text=True, timeout=3000)
         if p.returncode != 0:
             self.broken.append({"kind": "tie", "name": "model driver", "detail": p.stderr[-2000:]})
             return None
